@@ -18,7 +18,7 @@ model returns the interpretation of the same items), the C06 lemmas at the value
 (`desc_sync`). Lemmas: FitProps/EndToEnd*Lemmas.lean.
 
 PROPERTY THEOREMS: C01_e2e_actual, C01_e2e_roundtrip_partial, C01_e2e_reencode_partial, C01_e2e_full_fails_arr,
-C01_e2e_full_fails_zero, C01_e2e_full_fails_fffd, C01_e2e_reencode_full_fails_boolarr, C01_e2e_value_independent_of_byte_order
+C01_e2e_full_fails_zero, C01_e2e_full_fails_fffd, C01_e2e_reencode_boolarr_roundtrip, C01_e2e_value_independent_of_byte_order
 
 Findings of the pinned tree (open, see known_findings.jsonl): KF-C01-arr (F03), KF-C01-zero (F04), KF-C01-fffd (F02): the
 full statement `C01_e2e_roundtrip_full` is false on them (`C01_e2e_full_fails_*`); `C01_e2e_roundtrip_partial` excludes
@@ -169,8 +169,10 @@ def C01_e2e_reencode_full : Prop :=
 For encoder output it follows from `C01_e2e_actual` value by value (the example below evaluates an instance); for arbitrary
 input it needs an invariant of `decodeField` over all byte strings (a decoded value is aligned with the base type it is
 returned under, its array-ness is what the size implies) that the decoder-API lemma layer (C03: safety only) does not
-provide yet. One class is known to refute it, and with it the full statement (`C01_e2e_reencode_full_fails_boolarr`,
-finding KF-C01-boolarr): a profile-bool ARRAY field holding bytes other than 0 / 1 / 255. -/
+provide yet. At the value layer it holds for every numeric base type and ANY bytes (`C06_unmarshal_reencode_partial`: what
+`UnmarshalValue` returned re-marshals and reads back as itself). The one class that refuted it on the pinned tree — a
+profile-bool ARRAY field holding bytes other than 0 / 1 / 255, finding KF-C01-boolarr — was repaired in /repo 5da5106
+(`C01_e2e_reencode_boolarr_roundtrip`); no refuting class is known. -/
 def C01_e2e_dec_output_normal : Prop :=
   ∀ (c : Cfg) (o : Fit.DecApi.Opts) (input : List Nat) (fits : List Fit.DecApi.Fit) (kepts : List (List Message)) (bytes : List Nat),
     decodeChain o input = (fits, none) → encodeChain c (backFiles fits) 0 = (kepts, bytes, none) → PlainOpts o →
@@ -249,32 +251,57 @@ theorem C01_e2e_full_fails_fffd : ¬ C01_e2e_roundtrip_full :=
     (by decide +kernel) (by decide) (by decide) (by decide +kernel) (by decide +kernel)
     (by decide +kernel) (by decide +kernel)
 
-/-- **KF-C01-boolarr.** A factory with a profile-bool array field (the standard profile has none): the bytes 1C 01 decode
-as `[]typedef.Bool{0x1C, 1}` — array elements are returned as they are, a single `Bool` above 1 would be clamped to
-invalid — and `MarshalAppend` writes 255 for the 0x1C: the encoder accepts the decoded message, and encoding / decoding it
-again returns `{255, 1}`. The last sentence of the property is false at full strength. -/
-theorem C01_e2e_reencode_full_fails_boolarr : ¬ C01_e2e_reencode_full := by
-  intro h
-  let fac : Fit.DecApi.Factory := [⟨20, 12, ⟨true, 0x00, true, true, false, []⟩⟩]
-  let o : Fit.DecApi.Opts := { chk := true, exp := false, fac := fac }
-  let first : List FileIn := [{ msgs := [⟨20, [⟨some { num := 12, baseType := 0x00, nameKnown := true, profileBool := true, array := true },
-    .sliceUint8 [0x1C, 1], false⟩], []⟩] }]
-  let input := (encodeChain (kfCfg false) first 0).2.1
-  let fits := (decodeChain o input).1
-  let back := encodeChain (kfCfg false) (backFiles fits) 0
-  have hdec : decodeChain o input = (fits, none) := by decide +kernel
-  have henc : encodeChain (kfCfg false) (backFiles fits) 0 = (back.1, back.2.1, none) := by decide +kernel
-  obtain ⟨seqs, h1, h2⟩ := h (kfCfg false) o input fits back.1 back.2.1 hdec (by decide +kernel) henc
-    (kfCfg_ok false _ (by decide +kernel)) ⟨rfl, rfl, rfl, rfl⟩ (by decide +kernel) (by decide +kernel)
-  have hv : decodeValues o back.2.1 = ([[⟨20, [⟨12, 0, .sliceBool [255, 1]⟩], []⟩]], none) := by decide +kernel
-  rw [hv] at h1
-  simp only [Prod.mk.injEq, and_true] at h1
-  subst h1
-  have hk : back.1 = [[⟨20, [⟨some { num := 12, baseType := 0x00, nameKnown := true, profileBool := true, array := true },
-      .sliceBool [0x1C, 1], false⟩], []⟩]] := by decide +kernel
-  rw [hk] at h2
+/-! ### KF-C01-boolarr (repaired in /repo 5da5106): the former witness -/
+
+def boolArrFac : Fit.DecApi.Factory := [⟨20, 12, ⟨true, 0x00, true, true, false, []⟩⟩]
+def boolArrOpts : Fit.DecApi.Opts := { chk := true, exp := false, fac := boolArrFac }
+def boolArrField (v : Value) : Field :=
+  ⟨some { num := 12, baseType := 0x00, nameKnown := true, profileBool := true, array := true }, v, false⟩
+/-- the bytes 1C 01 in a profile-bool ARRAY field (a factory that has one: the standard profile has none) -/
+def boolArrInput : List Nat := (encodeChain (kfCfg false) [{ msgs := [⟨20, [boolArrField (.sliceUint8 [0x1C, 1])], []⟩] }] 0).2.1
+/-- what the decoder returns for them, handed back to the encoder -/
+def boolArrBack : List FileIn := backFiles (decodeChain boolArrOpts boolArrInput).1
+
+/-- **KF-C01-boolarr, repaired.** On the pinned tree the bytes 1C 01 decoded as `[]typedef.Bool{0x1C, 1}` (array elements
+as they were, a single `Bool` above 1 clamped to invalid), `MarshalAppend` wrote 255 for the 0x1C, and encoding / decoding
+the decoded message again returned `{255, 1}`: the last sentence of the property failed (this theorem was
+`C01_e2e_reencode_full_fails_boolarr : ¬ C01_e2e_reencode_full`). With `UnmarshalValue` clamping array elements too
+(`C06_unmarshal_bool_array`) the same bytes decode as `{255, 1}`; the encoder accepts the decoded message as it is; it meets
+every hypothesis of `C01_e2e_reencode_partial` (in wire-normal form — it was not before —, outside the three finding
+classes), and therefore (by that theorem, not by evaluation) encoding and decoding it again returns that very message. -/
+theorem C01_e2e_reencode_boolarr_roundtrip :
+    decodeValues boolArrOpts boolArrInput = ([[⟨20, [⟨12, 0, .sliceBool [255, 1]⟩], []⟩]], none) ∧
+    ∃ bytes, encodeChain (kfCfg false) boolArrBack 0 = ([[⟨20, [boolArrField (.sliceBool [255, 1])], []⟩]], bytes, none) ∧
+      decodeValues boolArrOpts bytes = ([[⟨20, [⟨12, 0, .sliceBool [255, 1]⟩], []⟩]], none) := by
+  refine ⟨by decide +kernel, (encodeChain (kfCfg false) boolArrBack 0).2.1, by decide +kernel, ?_⟩
+  have henc : encodeChain (kfCfg false) boolArrBack 0 =
+      ([[⟨20, [boolArrField (.sliceBool [255, 1])], []⟩]], (encodeChain (kfCfg false) boolArrBack 0).2.1, none) := by decide +kernel
+  obtain ⟨seqs, h1, h2⟩ := C01_e2e_reencode_partial (kfCfg false) boolArrOpts boolArrBack _ _ henc (by decide +kernel)
+    (kfCfg_ok false _ (by decide +kernel)) ⟨rfl, rfl, rfl, rfl⟩ (by decide +kernel) (by decide +kernel) (by decide +kernel)
+    (by decide +kernel)
+  rw [h1]
   cases h2 with
-  | cons hab _ => revert hab; decide +kernel
+  | cons hab htl =>
+    cases htl
+    rename_i ns
+    -- the only sequence matching the message literally (it has no timestamp: one allowed form) is the message itself
+    have : ns = [⟨20, [⟨12, 0, .sliceBool [255, 1]⟩], []⟩] := by
+      cases ns with
+      | nil => revert hab; decide +kernel
+      | cons n rest =>
+        cases rest with
+        | nil =>
+          have hn : n = ⟨20, [⟨12, 0, .sliceBool [255, 1]⟩], []⟩ := by
+            have : (msgVariants idValue false boolArrFac 0 [] ⟨20, [boolArrField (.sliceBool [255, 1])], []⟩).contains n = true := by
+              simp only [seqMatches, Bool.and_eq_true] at hab
+              exact hab.1
+            have hv : msgVariants idValue false boolArrFac 0 [] ⟨20, [boolArrField (.sliceBool [255, 1])], []⟩ =
+                [⟨20, [⟨12, 0, .sliceBool [255, 1]⟩], []⟩] := by decide +kernel
+            rw [hv] at this
+            simpa using this
+          rw [hn]
+        | cons _ _ => simp [seqMatches] at hab
+    rw [this]
 
 /-- the witnesses lie in the classes the partial theorem excludes, one each -/
 example : kfArr kfFac [⟨20, [hrField (.sliceUint8 [70, 71])], []⟩] = true ∧
